@@ -321,4 +321,35 @@ PLANS = {
             "'ws:msgmode' that the transport itself uses",
         ],
     },
+    "C11": {
+        "level": "exploration",
+        "rule": NT_RULE + "; C11: after at least one hostile session (mutated SP/TCP, SP/IPC, SP/socket-fd, WebSocket+HTTP or "
+                          "SP/UDP byte stream against the victim's receive path) a well-behaved connection completed an "
+                          "exchange that was begun after the attack (control connection and/or late joiner), or an "
+                          "over-RECVMAXSZ length was observed to close its connection; every message delivered to the "
+                          "victim application was judged against the reference decoder",
+        "budget_s": {"quick": 50, "thorough": 900},
+        "scenarios": [
+            S("c11_sp", 1300, 39000),
+            S("c11_ws", 800, 24000),
+            S("c11_udp", 800, 24000),
+        ],
+        "assumptions": [
+            "generation is grammar-based and seeded (valid session + structural mutations + truncation at any byte + "
+            "FIN/RST/half-close/silence endings); coverage-guided mutation, named in the quantifier, is not attempted",
+            "liveness bounds are virtual time with injected thread stalls subtracted: 5 s for an exchange of the control "
+            "connection begun during the attack, 3 s after it, 4 s for a newcomer, 5 s for the close after an over-RECVMAXSZ "
+            "length field; nng's own timeouts (10 s negotiation, 100 ms accept cool-down, ws close linger) are far below / not part of them",
+            "'closes that connection' is asserted only when the oversize length follows a correct handshake and intact "
+            "frames on a connection the victim is reading (tcp/ipc/socket/ws: EOF or RST seen by the peer; udp: a DISC datagram)",
+            "the reference decoders are strict up to the first framing violation; behind a WebSocket rule violation, a "
+            "non-canonical HTTP upgrade or non-canonical SP/UDP traffic deliveries are allowed but not required (the "
+            "statement promises nothing there except the size limit, memory safety and liveness)",
+            "hop-limit drops, replies with unknown request ids and PAIR's refusal of extra peers are other properties' "
+            "business: such messages are allowed but not required to be delivered",
+            "every UDP session ends with a DISC datagram (there is no FIN over UDP; a silent peer stays connected for 5 "
+            "refresh periods and PUSH/REQ victims would keep sending into the void); no datagram loss or reordering is injected",
+            "spin = more than 20000 scheduling points in 10 ms of virtual time with every harness task stopped",
+        ],
+    },
 }
